@@ -642,8 +642,9 @@ static void runCost(const std::vector<Entry> &reg, const json &job, vt::Trace &t
     // into the costs it reports for the second
     if (job.contains("requery"))
         budgets.push_back("requery");
-    for (auto &kk : budgets)
+    for (std::size_t bi = 0; bi < budgets.size(); ++bi)  // the list grows when the requery marker is reached
     {
+        const json kk = budgets[bi];
         if (kk.is_string())
         {
             p->clearQuery();
